@@ -482,8 +482,12 @@ func (t *tOps) remove(fd storage.FileDesc) {
 		if t.evictRemoved && t.blockCache != nil {
 			t.blockCache.EvictNS(uint64(fd.Num))
 		}
-		// Try to reuse file num, useful for discarded transaction.
-		t.s.reuseFileNum(fd.Num)
+		// Try to reuse file num, useful for discarded transaction. But not
+		// while blocks of the removed table may remain in the block cache:
+		// they are keyed by file number and would be served for the new table.
+		if t.blockCache == nil || t.evictRemoved {
+			t.s.reuseFileNum(fd.Num)
+		}
 	})
 }
 
